@@ -757,6 +757,207 @@ Proof.
   intros C H. unfold run. apply run_items_terminates; [apply closed_b_closed; exact C|exact H].
 Qed.
 
+(* ---- completeness of No, and #[derive(Hash, Eq, Ord)] implies #[derive(PartialOrd)] ------------------------------------------
+   (derive(Ord) needs a PartialOrd impl on the same item: rustc E0277 otherwise) *)
+Section NoComplete.
+  Variable g : dgraph.
+  Variable pred : dty -> bool.
+  Variable E : list (nat * nat).
+  Hypothesis Hclosed : forall d p, In p (paths_of g d) -> is_type g p.
+  (* the graph the downgrade consults has no edge that is not a path *)
+  Hypothesis Hsub : forall a b, In (a, b) E -> In b (paths_of g a).
+
+  (* d contains, transitively, an item one of whose types the predicate rejects *)
+  Definition bad (d : nat) : Prop :=
+    exists d' it ds, contains g d d' /\ find_item g d' = Some it /\ deps it = Some ds /\ existsb pred ds = true.
+
+  Lemma contains_trans a b c : contains g a b -> contains g b c -> contains g a c.
+  Proof. induction 1; [auto|]. intros. eapply contains_step; eauto. Qed.
+
+  Lemma reach_contains a b : reach E a b -> contains g a b.
+  Proof. induction 1; [constructor|]. eapply contains_step; eauto. Qed.
+
+  Lemma bad_step d p : In p (paths_of g d) -> bad p -> bad d.
+  Proof. intros H [d' [it [ds [C R]]]]. exists d', it, ds. split; [eapply contains_step; eauto|exact R]. Qed.
+
+  Definition NI (m : cmapT) : Prop := forall x, getm m x = Some No -> bad x.
+
+  Lemma walk_list_no f :
+    (forall d s r s', NI (cmap s) -> is_type g d -> f d s = Done (r, s') -> NI (cmap s') /\ (r = No -> bad d)) ->
+    forall ps s rs s', NI (cmap s) -> (forall p, In p ps -> is_type g p) -> walk_list f ps s = Done (rs, s') ->
+      NI (cmap s') /\ (existsb is_no rs = true -> exists p, In p ps /\ bad p).
+  Proof.
+    intros Hf. induction ps as [|p r IH]; intros s rs s' N T W; cbn [walk_list] in W.
+    - injection W as <- <-. split; [assumption|]. cbn. discriminate.
+    - destruct (f p s) as [[b sa]| |] eqn:Fp; try discriminate.
+      destruct (walk_list f r sa) as [[bs sb]| |] eqn:Wr; try discriminate.
+      injection W as <- <-.
+      destruct (Hf p s b sa N (T p (or_introl eq_refl)) Fp) as [Na Ba].
+      destruct (IH sa bs sb Na (fun q H => T q (or_intror H)) Wr) as [Nb Bb].
+      split; [assumption|]. cbn [existsb]. intros H. apply orb_true_iff in H. destruct H as [H|H].
+      + exists p. split; [now left|]. apply Ba. now destruct b.
+      + destruct (Bb H) as [q [Hq Bq]]. exists q. split; [now right|assumption].
+  Qed.
+
+  Lemma can_derive_no fuel :
+    forall d s r s', NI (cmap s) -> is_type g d -> can_derive g pred E fuel d s = Done (r, s') ->
+      NI (cmap s') /\ (r = No -> bad d).
+  Proof.
+    induction fuel as [|f IH]; intros d s r s' N T C; cbn [can_derive] in C; [discriminate|].
+    destruct (getm (cmap s) d) as [b|] eqn:G.
+    { injection C as <- <-. split; [assumption|]. intros ->. now apply N. }
+    destruct (memb d (vis s)); [injection C as <- <-; split; [assumption|discriminate]|].
+    destruct T as [it [ds [F Dp]]]. rewrite F, Dp in C.
+    assert (setNI : forall m c, NI m -> (c = No -> bad d) -> NI (setm m d c)).
+    { intros m c Nm H x Hx. destruct (Nat.eq_dec x d) as [->|Nx].
+      - rewrite getm_setm_eq in Hx. injection Hx as ->. now apply H.
+      - rewrite getm_setm_neq in Hx by assumption. now apply Nm. }
+    destruct (existsb pred ds) eqn:Pr.
+    { injection C as <- <-. cbn [cmap].
+      assert (B : bad d) by (exists d, it, ds; split; [constructor|auto]).
+      split; [apply setNI; auto|auto]. }
+    destruct (walk_list (can_derive g pred E f) (flat_map collect ds) (mkSt (cmap s) (d :: vis s) (del s)))
+      as [[rs s2]| |] eqn:W; try discriminate.
+    destruct (walk_list_no (can_derive g pred E f) IH (flat_map collect ds) (mkSt (cmap s) (d :: vis s) (del s)) rs s2 N) as [N2 B2];
+      [| exact W |].
+    { intros p Hp. apply (Hclosed d). unfold paths_of. now rewrite F, Dp. }
+    destruct (existsb is_no rs) eqn:AnyNo.
+    { injection C as <- <-. cbn [cmap downgrade].
+      assert (B : bad d).
+      { destruct (B2 eq_refl) as [p [Hp Bp]]. apply (bad_step d p); [|assumption]. unfold paths_of. now rewrite F, Dp. }
+      split; [|auto]. apply setNI; [|auto].
+      intros x Hx. rewrite getm_downgrade_map in Hx.
+      destruct (memb x (del s2) && reachb E x d) eqn:Q; [|now apply N2].
+      apply andb_true_iff in Q. destruct Q as [_ Q]. apply reachb_correct in Q. apply reach_contains in Q.
+      destruct B as [d' [it' [ds' [C' R']]]]. exists d', it', ds'. split; [eapply contains_trans; eauto|exact R']. }
+    destruct (existsb is_delay rs); injection C as <- <-; cbn [cmap]; (split; [apply setNI; [assumption|discriminate]|discriminate]).
+  Qed.
+
+  Lemma run_items_no fuel order :
+    forall m m', NI m -> run_items g pred E fuel order m = Done m' -> NI m'.
+  Proof.
+    induction order as [|d r IH]; intros m m' N R; cbn [run_items] in R; [injection R as <-; exact N|].
+    destruct (on_item g pred E fuel m d) as [m1| |] eqn:O; try discriminate.
+    eapply IH; [|exact R]. unfold on_item in O.
+    destruct (can_derive g pred E fuel d (mkSt m [] [])) as [[r0 s']| |] eqn:C; try discriminate. injection O as <-.
+    destruct (find_item g d) as [it|] eqn:F; [destruct (deps it) as [ds|] eqn:Dp|].
+    - apply (can_derive_no fuel d (mkSt m [] []) r0 s' N); [exists it, ds; auto|exact C].
+    - destruct fuel as [|f]; cbn [can_derive cmap vis] in C; [discriminate|].
+      destruct (getm m d); [injection C as <- <-; exact N|].
+      cbn [memb existsb] in C. rewrite F, Dp in C. injection C as <- <-. exact N.
+    - destruct fuel as [|f]; cbn [can_derive cmap vis] in C; [discriminate|].
+      destruct (getm m d); [injection C as <- <-; exact N|].
+      cbn [memb existsb] in C. rewrite F in C. discriminate.
+  Qed.
+
+  (* entries are never removed, and a call on a type item leaves it decided or being visited *)
+  Lemma walk_list_dom f :
+    (forall d s r s', f d s = Done (r, s') -> forall x, getm (cmap s) x <> None -> getm (cmap s') x <> None) ->
+    forall ps s rs s', walk_list f ps s = Done (rs, s') -> forall x, getm (cmap s) x <> None -> getm (cmap s') x <> None.
+  Proof.
+    intros Hf. induction ps as [|p r IH]; intros s rs s' W; cbn [walk_list] in W; [injection W as <- <-; auto|].
+    destruct (f p s) as [[b sa]| |] eqn:Fp; try discriminate.
+    destruct (walk_list f r sa) as [[bs sb]| |] eqn:Wr; try discriminate.
+    injection W as <- <-. intros x H. eapply IH; eauto.
+  Qed.
+
+  Lemma can_derive_dom fuel :
+    forall d s r s', can_derive g pred E fuel d s = Done (r, s') ->
+      (forall x, getm (cmap s) x <> None -> getm (cmap s') x <> None) /\
+      (is_type g d -> getm (cmap s') d <> None \/ In d (vis s)).
+  Proof.
+    induction fuel as [|f IH]; intros d s r s' C; cbn [can_derive] in C; [discriminate|].
+    destruct (getm (cmap s) d) as [b|] eqn:G.
+    { injection C as <- <-. split; [auto|]. intros _. left. congruence. }
+    destruct (memb d (vis s)) eqn:MV.
+    { injection C as <- <-. split; [auto|]. intros _. right. now apply memb_in. }
+    destruct (find_item g d) as [it|] eqn:F; [|discriminate].
+    destruct (deps it) as [ds|] eqn:Dp.
+    2:{ injection C as <- <-. split; [auto|]. intros [it' [ds' [F' D']]]. congruence. }
+    assert (setd : forall m c x, getm m x <> None -> getm (setm m d c) x <> None).
+    { intros m c x H. destruct (Nat.eq_dec x d) as [->|N]; [rewrite getm_setm_eq; discriminate|now rewrite getm_setm_neq]. }
+    destruct (existsb pred ds).
+    { injection C as <- <-. cbn [cmap]. split; [intros x H; now apply setd|]. intros _. left. rewrite getm_setm_eq. discriminate. }
+    destruct (walk_list (can_derive g pred E f) (flat_map collect ds) (mkSt (cmap s) (d :: vis s) (del s)))
+      as [[rs s2]| |] eqn:W; try discriminate.
+    pose proof (walk_list_dom (can_derive g pred E f) (fun d s r s' H => proj1 (IH d s r s' H)) _ _ _ _ W) as D2. cbn [cmap] in D2.
+    destruct (existsb is_no rs); [|destruct (existsb is_delay rs)]; injection C as <- <-; cbn [cmap downgrade];
+      (split; [|intros _; left; rewrite getm_setm_eq; discriminate]); intros x H; apply setd; auto.
+    rewrite getm_downgrade_map. destruct (memb x (del s2) && reachb E x d); [discriminate|auto].
+  Qed.
+
+  Lemma run_items_dom fuel order :
+    forall m m', run_items g pred E fuel order m = Done m' ->
+      (forall x, getm m x <> None -> getm m' x <> None) /\
+      (forall d, In d order -> is_type g d -> getm m' d <> None).
+  Proof.
+    induction order as [|d r IH]; intros m m' R; cbn [run_items] in R.
+    - injection R as <-. split; [auto|intros d []].
+    - destruct (on_item g pred E fuel m d) as [m1| |] eqn:O; try discriminate.
+      destruct (IH m1 m' R) as [K1 K2]. unfold on_item in O.
+      destruct (can_derive g pred E fuel d (mkSt m [] [])) as [[r0 s']| |] eqn:C; try discriminate. injection O as <-.
+      destruct (can_derive_dom fuel d _ r0 s' C) as [D1 D2]. cbn [cmap vis] in *.
+      split; [intros x H; apply K1; now apply D1|].
+      intros x [<-|Hx] T; [|now apply K2]. apply K1. destruct (D2 T) as [H|[]]. exact H.
+  Qed.
+End NoComplete.
+
+Lemma ws_visit_sub t p : In p (ws_visit t) -> In p (collect t).
+Proof.
+  induction t as [b|d|t IH|t IH|t _|k IHk v IHv|k _ v _|t _]; cbn [ws_visit collect]; auto; try (intros []).
+  intros H. apply in_app_iff in H. apply in_app_iff. destruct H; [left|right]; auto.
+Qed.
+
+(* with unique ids, every edge of the workspace graph is a path of its source item *)
+Lemma ws_edges_sub g : NoDup (map fst g) -> forall a b, In (a, b) (ws_edges g) -> In b (paths_of g a).
+Proof.
+  intros ND a b H. unfold ws_edges in H. apply in_flat_map in H. destruct H as [[k it] [I H]].
+  unfold item_edges in H. cbn [fst snd] in H. destruct (deps it) as [ds|] eqn:Dp; [|destruct H].
+  apply in_map_iff in H. destruct H as [x [Q H]]. injection Q as -> ->.
+  destruct (in_find_item g a it I) as [it' F]. pose proof (find_item_in g a it' F) as I'.
+  assert (it' = it) by (eapply NoDup_fst_unique; eauto). subst it'.
+  unfold paths_of. rewrite F, Dp. apply in_flat_map in H. destruct H as [t [Ht H]].
+  apply in_flat_map. exists t. split; [assumption|now apply ws_visit_sub].
+Qed.
+
+Lemma pred_po_heo t : pred_no PO t = true -> pred_no HEO t = true.
+Proof.
+  unfold pred_no. generalize (top_name (peel_vec t)). intros n. unfold pred_table.
+  unfold mem_str. rewrite !existsb_exists. intros [x [I Q]]. exists x. split; [|assumption].
+  revert I. vm_compute. tauto.
+Qed.
+
+Theorem derive_ord_implies_partialord g order mp mh :
+  NoDup (map fst g) -> closed_b g = true -> ws_complete_b g = true ->
+  run PO g order = Done mp -> run HEO g order = Done mh ->
+  forall d, In d order -> derives mh d = true -> derives mp d = true.
+Proof.
+  intros ND C W RP RH d Hd Dh. unfold run in *.
+  pose proof (closed_b_closed g C) as Hc.
+  assert (Hsub : forall a b, In (a, b) (downgrade_edges g) -> In b (paths_of g a))
+    by (rewrite downgrade_edges_ws; now apply ws_edges_sub).
+  assert (TH : TopInv g (pred_no HEO) mh).
+  { eapply run_items_top; [exact Hc| |apply top_empty|exact RH]. rewrite downgrade_edges_ws. now apply ws_complete_edges. }
+  apply derives_okm in Dh. destruct (top_pred _ _ _ TH d Dh) as [it [ds [F [Dp _]]]].
+  assert (T : is_type g d) by (exists it, ds; auto).
+  destruct (run_items_dom g (pred_no PO) (downgrade_edges g) _ order [] mp RP) as [_ K].
+  specialize (K d Hd T).
+  destruct (derives mp d) eqn:Dpo; [reflexivity|exfalso].
+  assert (Q : getm mp d = Some No).
+  { unfold derives in Dpo. destruct (getm mp d) as [[| |]|]; congruence. }
+  assert (N : NI g (pred_no PO) mp).
+  { eapply run_items_no; [exact Hc|exact Hsub| |exact RP]. intros x H. cbn in H. discriminate. }
+  destruct (N d Q) as [d' [it' [ds' [R [F' [D' B]]]]]].
+  (* the HEO set is closed under contains, so d' carries Hash/Eq/Ord although one of its types is rejected *)
+  assert (Od' : okm mh d').
+  { clear - R Dh TH. induction R as [x|x p y Hp R IH]; [assumption|]. apply IH.
+    destruct Dh as [H|H]; [left; eapply (top_yes _ _ _ TH); eauto|eapply (top_delay _ _ _ TH); eauto]. }
+  destruct (top_pred _ _ _ TH d' Od') as [it2 [ds2 [F2 [D2 P2]]]].
+  rewrite F' in F2. injection F2 as <-. rewrite D' in D2. injection D2 as <-.
+  apply existsb_exists in B. destruct B as [t [Ht Bt]]. apply pred_po_heo in Bt.
+  assert (existsb (pred_no HEO) ds' = true) by (apply existsb_exists; eauto). congruence.
+Qed.
+
 (* ---- both side conditions are necessary --------------------------------------------------------------------------------------- *)
 (* finding F-14k: struct S { 1: map<i32, double> m (pilota.rust_type = "btree") } *)
 Definition btree_double : dgraph := [(0, DMsg [DBTreeMap (DBase BI32) (DBase BF64)])].
@@ -817,3 +1018,12 @@ Example derive_nonvacuous :
   decisions PO list_cycle [0; 1; 2; 3; 4; 5; 6; 7] = Done [(0, Delay); (1, Delay); (2, Yes); (3, Yes); (4, Yes); (5, Yes); (7, No)] /\
   verdict HEO list_cycle [1; 0] = Done true.
 Proof. repeat split; vm_compute; reflexivity. Qed.
+
+Example derive_ord_nonvacuous :
+  NoDup (map fst list_cycle) /\
+  (exists mp mh, run PO list_cycle [5; 0; 7] = Done mp /\ run HEO list_cycle [5; 0; 7] = Done mh /\
+                 derives mh 5 = true /\ derives mp 5 = true /\ derives mh 0 = false /\ derives mp 0 = true).
+Proof.
+  split; [cbn; repeat constructor; cbn; intuition discriminate|].
+  eexists. eexists. split; [vm_compute; reflexivity|]. split; [vm_compute; reflexivity|]. repeat split; vm_compute; reflexivity.
+Qed.
